@@ -59,11 +59,13 @@ func (w *world) checkStability() []Violation {
 
 // parseCheck is the C03 differential oracle: the per-connection receiver that has already parsed earlier
 // messages, fed the live slice, must agree with a fresh receiver fed an exact-capacity copy.
+//
+//go:norace
 func (w *world) parseCheck(h *recHandler, msg *service.Message) {
 	if msg == nil || msg.JTMessage == nil || msg.JTMessage.Header == nil {
 		return
 	}
-	w.rare["c03.parse_calls"]++
+	w.parseCalls++
 	liveErr := h.JT808Handler.Parse(msg.JTMessage)
 	liveStr := stringOf(h.JT808Handler, liveErr)
 
@@ -116,6 +118,8 @@ func (w *world) parseCheck(h *recHandler, msg *service.Message) {
 }
 
 // stringOf renders a successfully parsed value as text (totality of String is part of C03).
+//
+//go:norace
 func stringOf(v any, err error) string {
 	if err != nil {
 		return ""
@@ -128,12 +132,15 @@ func stringOf(v any, err error) string {
 
 // canon renders the exported data of a value canonically: nil and empty slices/maps are identified,
 // function fields ignored, pointers followed.
+//
+//go:norace
 func canon(v reflect.Value) string {
 	var b strings.Builder
 	canonInto(&b, v, 0)
 	return b.String()
 }
 
+//go:norace
 func canonInto(b *strings.Builder, v reflect.Value, depth int) {
 	if depth > 12 || !v.IsValid() {
 		b.WriteString("~")
@@ -219,6 +226,8 @@ func canonInto(b *strings.Builder, v reflect.Value, depth int) {
 }
 
 // firstDiff names the first exported field (up to three levels deep) whose canonical rendering differs.
+//
+//go:norace
 func firstDiff(a, b reflect.Value, depth int) string {
 	for a.IsValid() && (a.Kind() == reflect.Pointer || a.Kind() == reflect.Interface) && !a.IsNil() {
 		a = a.Elem()
